@@ -8,6 +8,7 @@ import (
 	"encoding/json"
 	"fmt"
 	"os"
+	"strings"
 	"testing"
 	"time"
 
@@ -69,7 +70,7 @@ func TestWorker(t *testing.T) {
 				samples++
 			}
 			emit(res)
-			if res.Violation != nil && (res.Violation.Class == "panic" || res.Violation.Class == "harness-leak") {
+			if FinalizerStuck || res.Violation != nil && (strings.HasPrefix(res.Violation.Class, "panic") || res.Violation.Class == "harness-leak") {
 				// the process may hold a wedged SQLite connection; let the runner start a fresh one
 				emit(map[string]interface{}{"restart_from": i + stride})
 				return
